@@ -112,13 +112,25 @@ static void note_notify_child (nsync_note n, nsync_note parent) {
 	}
 }
 
+/* Return whether *v has been marked as notified.  Assumes n->note_mu held. */
+static int note_is_marked (const void *v) {
+	return (ATM_LOAD_ACQ (&((nsync_note)v)->notified) != 0);
+}
+
 /* Notify *n and all its descendants that are not already disconnnecting.
    No locks are held. */
 static void notify (nsync_note n) {
 	nsync_time t;
 	nsync_mu_lock (&n->note_mu);
 	t = NOTIFIED_TIME (n);
-	if (nsync_time_cmp (t, nsync_time_zero) > 0) {
+	if (nsync_time_cmp (t, nsync_time_zero) > 0 && n->disconnecting != 0) {
+		/* Another thread is already notifying *n, and will disconnect
+		   it from its parent.  Once it has done so the parent may be
+		   freed, so this thread must not release n->note_mu in
+		   order to lock n->parent as below.  Instead, let the other
+		   thread do the work, and return once it has marked *n. */
+		nsync_mu_wait (&n->note_mu, &note_is_marked, n, NULL);
+	} else if (nsync_time_cmp (t, nsync_time_zero) > 0) {
 		nsync_note parent;
 		n->disconnecting++;
 		parent = n->parent;
